@@ -69,6 +69,7 @@ class ResWorld(World):
             self.price_rows = {
                 "p1": {"station_id": "s0", "charger_id": "DCFC", "price_kwh": "0.291"},
                 "p2": {"station_id": "bs", "charger_id": "LEVEL_2", "price_kwh": "0.137"},
+                "p3": {"station_id": "s0", "charger_id": "LEVEL_2", "price_kwh": "0.173"},  # same station as p1, other plug
             }
         link_m = rn.position_from_geoid(S["M2"]).link_id
         per_vehicle = [
